@@ -10,7 +10,7 @@ from __future__ import annotations
 import ast
 
 from ..cfg import cfg_of
-from ..flow import flow_of, path_of
+from ..flow import deref, flow_of, path_of
 from ..loader import FUNC, AnalysisError, dotted, last_name, loc, short, walk_local, enclosing_func, enclosing_stmt
 from ..util import FACTORY, REPEX, SCHED, SETUP, TIS, all_calls, is_self_attr, last_key, loops_of
 from ..variants import B, K
@@ -958,7 +958,42 @@ def r314(ctx, acq, methods, rid="R-3.14", what=""):
         raise AnalysisError(f"{rid}: only {n} acquire calls found in REPEX_state (expected >= 3)")
 
 
+def r319(ctx):
+    """The busy set is asked many times: callers fetch `locks = self.locked_paths()` once and test
+    `path not in locks` slot by slot. The accessors therefore return a materialised collection
+    (list / tuple / set), never a one-shot iterator (generator expression, itertools.compress,
+    filter, map, zip): a membership test on an iterator consumes it, so after the first idle path
+    every later busy path looks idle - the re-sort moves a running job's path out of its ensemble
+    and the next pick hands it to a second job."""
+    rid = "R-3.19"
+    cls = ctx.tree.cls(REPEX, "REPEX_state")
+    methods = {s.name: s for s in cls.body if isinstance(s, FUNC)}
+    ONE_SHOT = {"compress", "filter", "map", "zip", "iter", "reversed", "chain", "islice", "takewhile", "dropwhile", "filterfalse", "starmap"}
+    SOLID = {"list", "tuple", "set", "frozenset", "sorted", "array", "tolist"}
+    for name in ("locked_paths", "live_paths"):
+        f = methods.get(name)
+        if f is None:
+            raise AnalysisError(f"R-3.19: REPEX_state.{name} not found")
+        fl = flow_of(f)
+        if any(isinstance(x, (ast.Yield, ast.YieldFrom)) for x in walk_local(f)):
+            ctx.bad(rid, f, f"REPEX_state.{name} is a generator function: its result can be searched only once", construct=f"{name}: generator")
+            continue
+        for r in [x for x in walk_local(f) if isinstance(x, ast.Return) and x.value is not None]:
+            v = r.value
+            if isinstance(v, ast.Name):
+                v, _ = deref(fl, v, fl.cfg.node_of(r))
+            if isinstance(v, (ast.List, ast.ListComp, ast.Set, ast.SetComp, ast.Tuple, ast.Dict, ast.DictComp)) or (isinstance(v, ast.Call) and last_name(v) in SOLID):
+                ctx.ok(rid, r, f"REPEX_state.{name} returns a materialised collection")
+            elif isinstance(v, ast.GeneratorExp) or (isinstance(v, ast.Call) and last_name(v) in ONE_SHOT):
+                ctx.bad(rid, r, f"REPEX_state.{name} returns a one-shot iterator (`{short(v, 50)}`): callers keep the result and test `x not in locks` for every slot - the first test that does not hit consumes the iterator, every later busy path is taken for idle, so sort_trajstate can move the path of a running job out of its busy ensemble and pick() then hands that path to a second job",
+                        construct=f"{name}: returns a one-shot iterator")
+            else:
+                raise AnalysisError(f"R-3.19: cannot tell whether `{short(v, 50)}` returned by {name} can be searched repeatedly")
+
+
 def run(ctx):
+    ctx.rule("R-3.19", "the busy set can be asked repeatedly: locked_paths() / live_paths() return materialised collections, never one-shot iterators", floor=2)
+    ctx.attempt(r319, ctx)
     from .shared import RuleProxy as _RP0
     ctx.rule("R-3.8", "busy-path membership tests compare path numbers in the same representation (int vs their str form in the in-flight record)", floor=3)
     ctx.rule("R-3.10", "membership tests against the busy paths consult the whole result of locked_paths() (no slice / filter)", floor=2)
@@ -1004,6 +1039,8 @@ def run(ctx):
 
 
 VARIANTS = [
+    B("c03-busy-paths-as-one-shot-iterator", REPEX, "        locks = [\n            t0.path_number\n            for t0, l0 in zip(self._trajs[:-1], self._locks[:-1])\n            if l0\n        ]\n        return locks\n", "        return (t0.path_number for t0, l0 in zip(self._trajs[:-1], self._locks[:-1]) if l0)\n", "R-3.19", control=True, why="seeded C03_p (generator form)"),
+    K("c03-keep-busy-paths-returned-directly", REPEX, "        locks = [\n            t0.path_number\n            for t0, l0 in zip(self._trajs[:-1], self._locks[:-1])\n            if l0\n        ]\n        return locks\n", "        return [t0.path_number for t0, l0 in zip(self._trajs[:-1], self._locks[:-1]) if l0]\n"),
     B("c03-finished-job-found-by-substring", REPEX, "            for idx, lock in enumerate(self.locked):\n                if str(pn_old) in lock[1]:\n                    self.locked.pop(idx)\n", "            self.locked = [\n                lock\n                for lock in self.locked\n                if not any(str(pn_old) in pnum for pnum in lock[1])\n            ]\n", "R-3.5", control=True, why="seeded C03_o"),
     K("c03-keep-record-rebuilt-by-exact-membership", REPEX, "            for idx, lock in enumerate(self.locked):\n                if str(pn_old) in lock[1]:\n                    self.locked.pop(idx)\n", "            self.locked = [lock for lock in self.locked if str(pn_old) not in lock[1]]\n", why="same selection, exact list membership"),
     B("c03-counter-stored-back-after-the-commit", REPEX, '        self.config["current"]["traj_num"] = traj_num\n        self.cworker = md_items["pin"]', '        self.cworker = md_items["pin"]', "R-3.18", control=True, also=[(REPEX, "        self.write_toml()\n\n        return md_items", '        self.write_toml()\n        self.config["current"]["traj_num"] = traj_num\n\n        return md_items')], why="seeded C03_n"),
